@@ -6,9 +6,7 @@ import checks
 
 ALL = ['C%02d' % i for i in range(1, 29)]
 NA = {
- 'C01': 'harness/c01_hp.cpp (real src/hp.cpp + Guard/retire) translates, validates against the g++ build and exposed the classic_scan defect (fixed: f339130), but cbmc returned no verdict within 10 min per query even for 2 objects: a solver step that does not finish cannot be claimed; see DESIGN.md 11.5',
  'C02': 'DHP: as C01, plus free-list-backed block allocators; not encoded',
- 'C03': 'same harness and same reason as C01 (no solver verdict within the cap); DHP not encoded',
  'C04': 'user-space RCU: gp/sh singletons with std::mutex, condition variables, signals and a disposer thread are outside what the translator stubs; not encoded',
  'C05': 'as C04',
  'C06': 'MS/Moir/Basket/Optimistic/RW/FC queues need the HP/DHP singleton (C01) or the flat-combining kernel (C23) encoded first; not encoded',
@@ -25,7 +23,6 @@ NA = {
  'C19': 'thread-safe iterators need IterableList/FeldmanHashSet over HP encoded; not encoded',
  'C20': 'reference-model comparison of every container variant: heap-backed containers with symbolic scripts are beyond reach at useful bounds; not encoded',
  'C23': 'flat-combining kernel: thread-local publication records, std::mutex/condvar wait strategies; not encoded',
- 'C24': 'pools sit on VyukovMPMCCycleQueue (decided under C07); allocate/deallocate ownership harness not built',
 }
 
 TEXT = {
@@ -34,6 +31,9 @@ TEXT = {
  'C27': ('model_checking', 'full-width symbolic hash, table size 2^k for k in 0..63 and second bucket through the real regular_hash/dummy_hash/bucket_no/parent_bucket of the HP, nogc and RCU SplitListSet for each bit-reversal algorithm'),
  'C28': ('model_checking', 'symbolic head_bits/array_bits through the real metrics::make for 1/2/4/8-byte hashes, and the cut sequence of traverse on the real splitter for two symbolic hashes: exact tiling and divergence of distinct hashes'),
  'C22': ('model_checking', 'all schedules with at most K-1 context switches (before every atomic operation) of 2-3 threads x 1-2 critical sections on the real spin_lock / reentrant_spin_lock (nested lock, try_lock, try_lock(n)), pool_monitor (over a ghost lock pool: attachment, return-to-pool and mutual-exclusion oracles), injecting_monitor and lock_array (pow2 and mod policies, solver-chosen hints), by coroutine sequentialisation of the clang IR + cbmc'),
+ 'C01': ('model_checking', 'HP scheme: (1) the real basic_smr::classic_scan / inplace_scan run once from an arbitrary valid pre-state chosen by the solver (2-3 thread records, 1-2 hazard slots each holding any object or nothing, owned or detached records, any subset of 2-4 objects retired in any order): no protected object is disposed, every unprotected retired object is disposed exactly once, the retired array stays well-formed; (2) reader Guard::protect()+dereference || writer unlink+retire()+pass under every schedule with at most K-1 context switches'),
+ 'C03': ('model_checking', 'HP scheme only: same queries as C01 - exactly-once disposal by a pass for every retired object no guard protects, nothing disposed twice or unretired, and after the guards are dropped the next pass disposes the rest (DHP not encoded)'),
+ 'C24': ('model_checking', 'all schedules with at most K-1 context switches of 2-3 threads x 1-2 solver-chosen allocate/deallocate steps on the real vyukov_queue_pool, lazy_vyukov_queue_pool, bounded_vyukov_queue_pool and pool_allocator (capacity 2, driven past capacity where the pool allows it) from a solver-chosen pre-state of held objects; ghost set of allocated objects (no double hand-out), quiescent re-allocation of every pooled object'),
  'C21': ('model_checking', 'all schedules with at most K-1 context switches of 2 threads x 1-2 get/put steps (3 threads x 1 in the thorough tier) on the real FreeList, TaggedFreeList and CachedFreeList with 2 nodes; initial ownership chosen by the solver; ghost-ownership oracle (no double hand-out), final drain (no node lost)'),
  'C12': ('model_checking', 'sequential: every script of 5-6 solver-chosen API calls with solver-chosen batch/record sizes on the real WeakRingBuffer<T> (capacity 4, static and dynamic buffer) and WeakRingBuffer<void> (32 bytes) against a FIFO/record model incl. the exact refusal conditions and record bytes; concurrent: producer || consumer, every schedule with at most K-1 context switches, history linearizable to the bounded FIFO (batch) / record FIFO'),
  'C07': ('model_checking', 'all schedules with at most K-1 context switches of 2-3 threads x 1-2 solver-chosen enqueue/dequeue operations on the real container:: and intrusive::VyukovMPMCCycleQueue (capacity 2-8, pre-rotated = wrapped around, pre-filled by solver choice; static/dynamic buffer; item counter; single-consumer front()/pop_front(); a value_cleaner that overwrites the cell), history checked for linearizability to a bounded FIFO inside the harness'),
